@@ -44,7 +44,8 @@ def simple_desc(rng, nblocks):
         stmts = []
         for _ in range(rng.randint(1, 4)):
             n += 1
-            stmts.append("item%d = %s(%s)" % (n, rng.choice(["fry", "mix"]), ", ".join("%d g thing%d%s" % (rng.randint(1, 9), n, c) for c in "ab"[:rng.randint(1, 2)])))
+            base = rng.choice(["thing", "thing", "cafe\u0301 ", "cre\u0300me bru\u0302le\u0301e ", "\u65e5\u672c", "\U0001F372 stew ", "na\u00efve ", "x\u00a0y "])
+            stmts.append("item%d = %s(%s)" % (n, rng.choice(["fry", "mix"]), ", ".join("%d g %s%d%s" % (rng.randint(1, 9), base, n, c) for c in "ab"[:rng.randint(1, 2)])))
         blocks.append(stmts)
     return blocks
 
